@@ -71,13 +71,15 @@ harness("dirent_unallocated_blank", props=["C03"], timeout=300, mem=4,
 harness("dirent_maxname_concrete", props=["C09"], tier="thorough", timeout=2400, mem=9,
         what="a 31-unit name is written verbatim with length field 64 and read back by both readers in both versions",
         bounds="one concrete 31-character name", functions=DIRENT_F, assumes=[])
-harness("dirent_root_name", props=["C16"], tier="thorough", timeout=3600, mem=16,
-        what="root entry with an arbitrary 10-character ASCII name: strict accepts iff the name is exactly 'Root Entry'; permissive accepts and exposes 'Root Entry'",
-        bounds="10 symbolic printable ASCII characters", functions=DIRENT_F, assumes=[])
+for (n, tier) in [("dirent_root_name_lower", "quick"), ("dirent_root_name_upper", "thorough"), ("dirent_root_name_mixed", "thorough"),
+                  ("dirent_root_name_other", "thorough"), ("dirent_root_name_exact", "thorough")]:
+    harness(n, props=["C16"], tier=tier, timeout=1800, mem=6,
+            what="root entry whose name differs from 'Root Entry' only in letter case / in length / not at all: strict accepts iff the name is exactly 'Root Entry'; permissive accepts and exposes 'Root Entry'",
+            bounds="five concrete root names; all other fields symbolic", functions=DIRENT_F, assumes=[])
 
 # ---------------------------------------------------------------- header / validators / chain walk
 HDR_F = ["Header::read_from", "Header::write_to", "Version::from_number"]
-harness("hdr_parse_total", props=["C05", "C16", "C04"], tier="thorough", timeout=5400, mem=40,
+harness("hdr_parse_total", props=["C05", "C16", "C04"], tier="thorough", timeout=7200, mem=20,
         what="Header::read_from on 512 fully symbolic bytes in both modes: never panics; acceptance per mode equals MS-CFB 2.2 (+ tolerated v3 directory-sector count); strict Ok => permissive Ok with identical fields; every field equals the independent little-endian decoding; DIFAT array read up to the first FREE",
         bounds="all 2^4096 headers", functions=HDR_F, assumes=[])
 harness("hdr_roundtrip", props=["C03", "C02", "C17"], timeout=600, mem=8,
